@@ -414,6 +414,14 @@ func (e *Engine) tryMerge(a, b Outcome, nPC int) (Outcome, bool) {
 	// results
 	res := make([]Value, len(a.results))
 	for i := range res {
+		// an outcome that returns data (a slice over some object) is not merged with one that
+		// returns a nil slice: the success path of a helper such as ([]byte, []byte, error) stays a
+		// path of its own, with its facts unconditional, instead of living under an if-then-else
+		if sa, ok := a.results[i].(SliceV); ok {
+			if sb, ok := b.results[i].(SliceV); ok && sa.Obj != sb.Obj {
+				return a, false
+			}
+		}
 		m, ok := e.mergeValues(cond, a.results[i], b.results[i])
 		if !ok {
 			return a, false
@@ -468,9 +476,15 @@ func (e *Engine) tryMerge(a, b Outcome, nPC int) (Outcome, bool) {
 		vb, okb := b.st.ghost[k]
 		if !oka {
 			va = e.initGhostVal(k)
+			if strings.HasPrefix(k, "alloc.") {
+				va = Num(0) // no allocation on that path yet (what alloc() reads for an absent entry)
+			}
 		}
 		if !okb {
 			vb = e.initGhostVal(k)
+			if strings.HasPrefix(k, "alloc.") {
+				vb = Num(0)
+			}
 		}
 		if sameValue(va, vb) {
 			ns.ghost[k] = va
